@@ -12,9 +12,10 @@ ids = [p["id"] for p in props]
 checks = []
 claimed = set()
 for pid in ids:
-    c = src["checks"].get(pid)
-    if not c:
+    cp = os.path.join(HERE, "manifest.d", "%s.json" % pid)
+    if not os.path.exists(cp):
         continue
+    c = json.load(open(cp))
     claimed.add(pid)
     checks.append(dict(
         property_id=pid,
